@@ -70,7 +70,19 @@ def gen_case(seed, tier):
         if dom != "comb":
             tf = [i for i, w in enumerate(wports) if w["domain"] == dom and cfg.random() < 0.6]
         rports.append({"domain": dom, "transparent_for": tf})
-    config = {"shape": shape, "depth": depth, "init": init, "domains": doms, "wports": wports, "rports": rports}
+    wrap = []
+    nctl = 0
+    if cfg.random() < 0.35:
+        for _ in range(cfg.randint(1, 3)):
+            kind_w = cfg.choice(["enable", "enable", "reset", "rename"])
+            if kind_w == "rename":
+                if ndom == 2:
+                    a_, b_ = cfg.sample(["a", "b"], 2)
+                    wrap.append(["rename", {a_: b_}])
+            else:
+                wrap.append([kind_w, cfg.choice(doms)["name"], nctl])
+                nctl += 1
+    config = {"shape": shape, "depth": depth, "init": init, "domains": doms, "wports": wports, "rports": rports, "wrap": wrap}
 
     aw = max(0, (depth - 1).bit_length()) if depth > 0 else 0
     nsteps = cfg.randint(20, 160) if tier == "quick" else cfg.randint(20, 800)
@@ -106,7 +118,7 @@ def gen_case(seed, tier):
                 else:
                     steps.append({"k": "row_rd", "a": wl.randrange(max(1, depth))})
                 continue
-            cands = []
+            cands = [("ctl%d" % k, None) for k in range(nctl)]
             for i, wp in enumerate(wports):
                 cands += [("w%d.addr" % i, None), ("w%d.data" % i, None), ("w%d.en" % i, wp)]
             for i, rp in enumerate(rports):
@@ -120,6 +132,8 @@ def gen_case(seed, tier):
                 v = addr()
             elif name.endswith(".data"):
                 v = wl.randrange(1 << width)
+            elif name.startswith("ctl"):
+                v = int(wl.random() < 0.7)
             elif name[0] == "w":
                 ew = en_width(wp)
                 v = wl.choice([0, (1 << ew) - 1, wl.randrange(1 << ew), (1 << ew) - 1])
@@ -181,6 +195,35 @@ def build(config):
     return mem, wps, rps
 
 
+def build_dut(config):
+    """-> (dut, mem, wps, rps, ctls): the memory wrapped in the configured Enable/Reset inserters and renamers"""
+    from amaranth.hdl import Signal, EnableInserter, ResetInserter, DomainRenamer
+    mem, wps, rps = build(config)
+    dut = mem
+    ctls = {}
+    for w in config.get("wrap", []):
+        if w[0] == "rename":
+            dut = DomainRenamer(dict(w[1]))(dut)
+        else:
+            c = ctls.setdefault(w[2], Signal(name="ctl%d" % w[2]))
+            dut = (EnableInserter if w[0] == "enable" else ResetInserter)({w[1]: c})(dut)
+    return dut, mem, wps, rps, ctls
+
+
+def port_eff(config, dom):
+    """-> (effective domain, [enable-control indices gating the port])  (inside-out along the wrapper list)"""
+    cur = dom
+    gates = []
+    if dom == "comb":
+        return cur, gates
+    for w in config.get("wrap", []):
+        if w[0] == "rename":
+            cur = w[1].get(cur, cur)
+        elif w[0] == "enable" and w[1] == cur:
+            gates.append(w[2])
+    return cur, gates
+
+
 def granule_bits(config, wp):
     """List of bit masks, one per enable bit."""
     sh = config["shape"]
@@ -199,7 +242,9 @@ def run_case(case):
     depth = config["depth"]
     width = shape_width(config["shape"])
     full = (1 << width) - 1
-    mem, wps, rps = build(config)
+    dut, mem, wps, rps, ctls = build_dut(config)
+    weff = [port_eff(config, w["domain"]) for w in config["wports"]]
+    reff = [port_eff(config, r["domain"]) for r in config["rports"]]
     res = Result()
     dig = Digest()
     stats = {"steps": 0, "edges": 0, "faults": {"coincide": 0, "oob": 0, "gate": 0, "glitch-in": 0, "inactive": 0},
@@ -209,7 +254,7 @@ def run_case(case):
     P, F = stats["probes"], stats["faults"]
     domains = [DomainSpec(d["name"], edge=d["edge"]) for d in config["domains"]]
     act = {d["name"]: (1 if d["edge"] == "pos" else 0) for d in config["domains"]}
-    run = ManualRun(mem, domains, sched_mode=case["sched"]["mode"], sched_seed=case["sched"]["seed"])
+    run = ManualRun(dut, domains, sched_mode=case["sched"]["mode"], sched_seed=case["sched"]["seed"])
     gmasks = [granule_bits(config, w) for w in config["wports"]]
 
     def raw(v):
@@ -225,7 +270,12 @@ def run_case(case):
             sigs["r%d.addr" % i] = p.addr
             if config["rports"][i]["domain"] != "comb":
                 sigs["r%d.en" % i] = p.en
+        for k, c in ctls.items():
+            sigs["ctl%d" % k] = c
         inp = {n: raw(drv.get(s)) if n.endswith(".data") else drv.get(s) for n, s in sigs.items()}
+
+        def gated(gates):
+            return all(inp["ctl%d" % g] for g in gates)
         rdata = [Value.cast(p.data) for p in rps]
         rows = [[(config["init"][a] if a < len(config["init"]) else 0), full] for a in range(depth)]   # [value, known]
         rreg = [[0, 0] for _ in rps]          # sync read registers: [value, known]
@@ -307,9 +357,11 @@ def run_case(case):
                     # writes of this instant (pre-edge inputs)
                     writes = []     # (port index, domain, addr, bitmask, data)
                     for i, wp in enumerate(config["wports"]):
-                        if wp["domain"] not in active:
+                        if weff[i][0] not in active:
                             continue
-                        en = inp["w%d.en" % i]
+                        en = inp["w%d.en" % i] if gated(weff[i][1]) else 0
+                        if weff[i][1] and not gated(weff[i][1]):
+                            P["inserted_enable_gated_write"] = P.get("inserted_enable_gated_write", 0) + 1
                         bm = 0
                         for b, gm in enumerate(gmasks[i]):
                             if (en >> b) & 1:
@@ -318,14 +370,14 @@ def run_case(case):
                             P["granular_write"] += 1
                         a = inp["w%d.addr" % i]
                         if en and a < depth:
-                            writes.append((i, wp["domain"], a, bm, inp["w%d.data" % i]))
+                            writes.append((i, weff[i][0], a, bm, inp["w%d.data" % i]))
                             P["port_writes"] += 1
                     # sync read captures (pre-edge rows)
                     newreg = {}
                     for i, rp in enumerate(config["rports"]):
-                        if rp["domain"] == "comb" or rp["domain"] not in active:
+                        if rp["domain"] == "comb" or reff[i][0] not in active:
                             continue
-                        if not inp["r%d.en" % i]:
+                        if not (inp["r%d.en" % i] and gated(reff[i][1])):
                             continue
                         a = inp["r%d.addr" % i]
                         if a >= depth:
@@ -335,7 +387,7 @@ def run_case(case):
                         for (wi, wd, wa, bm, wdata) in writes:
                             if wa != a or not bm:
                                 continue
-                            if wd != rp["domain"]:
+                            if wd != reff[i][0]:
                                 known &= ~bm            # write from another clock in the same instant: undefined
                                 P["cross_domain_collision"] += 1
                             elif wi in rp["transparent_for"]:
@@ -347,7 +399,7 @@ def run_case(case):
                         # two transparent ports patching the same bits: undefined
                         seen = 0
                         for (wi, wd, wa, bm, wdata) in writes:
-                            if wa == a and wd == rp["domain"] and wi in rp["transparent_for"]:
+                            if wa == a and wd == reff[i][0] and wi in rp["transparent_for"]:
                                 known &= ~(seen & bm)
                                 seen |= bm
                         newreg[i] = [val & full, known & full]
